@@ -142,6 +142,8 @@ class MiniEval:
                 return a % b
             if isinstance(op, ast.FloorDiv):
                 return a // b
+            if isinstance(op, ast.Div):
+                return a / b
         except Exception as e:
             raise Undetermined('arithmetic failed: %s' % e)
         raise Undetermined('operator %s' % type(op).__name__)
@@ -237,7 +239,26 @@ class MiniEval:
             base = self.expr(e.value, env)
             if isinstance(base, (_dt.datetime, _dt.date)) and e.attr in ('year', 'month', 'day', 'hour', 'minute', 'second'):
                 return getattr(base, e.attr)
+            if isinstance(base, _dt.timedelta) and e.attr in ('days', 'seconds'):
+                return getattr(base, e.attr)
             raise Undetermined('attribute %s' % ast.unparse(e))
+        if isinstance(e, ast.JoinedStr):
+            out = []
+            for part in e.values:
+                if isinstance(part, ast.Constant):
+                    out.append(str(part.value))
+                else:
+                    v = self.expr(part.value, env)
+                    if isinstance(v, _Unknown):
+                        raise Undetermined(v.why)
+                    spec = ''
+                    if part.format_spec is not None:
+                        spec = self.expr(part.format_spec, env)
+                    try:
+                        out.append(format(v, spec))
+                    except Exception as ex:
+                        raise Undetermined('format failed: %s' % ex)
+            return ''.join(out)
         if isinstance(e, ast.Subscript):
             base = self.expr(e.value, env)
             key = self.expr(e.slice, env)
@@ -260,6 +281,11 @@ class MiniEval:
                     return {'int': int, 'len': len, 'str': str, 'bool': bool, 'abs': abs, 'float': float}[f.id](*args)
                 except Exception as ex:
                     raise Undetermined('%s() failed: %s' % (f.id, ex))
+            if f.id == 'divmod' and len(args) == 2:
+                try:
+                    return list(divmod(*args))
+                except Exception as ex:
+                    raise Undetermined('divmod failed: %s' % ex)
             if f.id in ('any', 'all') and len(args) == 1 and isinstance(args[0], list):
                 return (any if f.id == 'any' else all)(self.truth(x) for x in args[0])
             if f.id == 'timedelta':
@@ -1327,7 +1353,8 @@ def run(chk):
             if g['bad']:
                 chk.bad('C08.relperiod', pcfg.mod.path, cons, '; '.join(sorted(g['bad'])),
                         '%s: %s - %s (expected swift %+d and unit %s); %d other phrasing(s) evaluate correctly'
-                        % (cul, key, '; '.join(sorted(g['bad'])), {'last': -1, 'next': 1, 'this': 0}[key.split()[0]], key.split()[1], len(g['ok'])))
+                        % (cul, key, '; '.join(sorted(g['bad'])), {'last': -1, 'next': 1, 'this': 0}[key.split()[0]], key.split()[1], len(g['ok'])),
+                        (idx.find_method(pcfg, 'get_swift_day_or_month')[1] or pcfg.node).lineno)
             elif g['ok']:
                 chk.ok('C08.relperiod', pcfg.mod.path, cons, '%d phrase(s): %s' % (len(g['ok']), ', '.join(sorted(g['ok']))))
             else:
